@@ -153,7 +153,8 @@ def do_check(pid, tier, seed, spec, runs, build_root, out_dir, jobs, t0):
     covers_missing = []
     libfns = {}
     samples = []
-    budget = spec.get('budget_s', {}).get(tier)
+    # wall budget per run: a run that does not finish is INCONCLUSIVE (exit 2), never a pass
+    budget = spec.get('budget_s', {}).get(tier, 900 if tier == 'quick' else 3000)
     for run in runs:
         try:
             ll = build_run(run, build_root)
